@@ -699,7 +699,7 @@ class SetDict(dict):
 
 
 def inf2str(value):  # map np.inf to "inf"
-    if not isinstance(value, (int, float)):
+    if not isinstance(value, float):
         return value
     return str(value) if not np.isfinite(value) else value
 
